@@ -53,8 +53,7 @@ impl PatchList {
         let mut patches = vec![];
 
         let mut patch_length = 0;
-        if let Some(patch_length_index) = encoded.find("X-Patch-Length: ") {
-            let rest_of_string = &encoded[patch_length_index..];
+        if let Some((_, rest_of_string)) = encoded.split_once("X-Patch-Length: ") {
             if let Some(end_of_number_index) = rest_of_string.find("\r\n") {
                 let patch_length_parse: Result<u64, _> =
                     rest_of_string[0..end_of_number_index].parse();
